@@ -250,6 +250,18 @@ pub fn nt_c03(case: &RCase, log: &RunLog, m: &Modelled) -> bool {
 // ------------------------------------------------------------------------------------------
 // C04
 
+/// "Every scenario handed to the runner is attempted ... under every completion order": a scenario
+/// that is ready while a slot is free must be started without waiting for the user code of the
+/// attempts in flight - under the completion order in which those finish last (they wait for what
+/// the starved scenario does) it would never be attempted and the run would never end. Same
+/// predicate as C06's refill obligation (reading R5).
+pub fn check_c04_starved(case: &RCase, log: &RunLog, m: &Modelled) -> Vec<Violation> {
+    refill_violation(case, log, m)
+        .map(|(_, msg)| v("C04/ready-scenario-waits-for-running-ones", format!("{msg}: it is attempted only once user code of the attempts in flight completes - never, if they are the last to complete")))
+        .into_iter()
+        .collect()
+}
+
 pub fn check_c04(case: &RCase, log: &RunLog) -> Vec<Violation> {
     let mut out = vec![];
     // "lets the other side make progress": a future whose gate was opened (and whose waker was
